@@ -636,7 +636,7 @@ def c11(tier, seed):
            note='every counter vector per disk, parity_is_invalid true / false, diff and scan'),
         Ob('parity.is_invalid', P, 'h_is_invalid', defs={'VERIF_ALLOW_BEYOND': None}, unwind=8, small_path=True, timeout=900, mem=6, cost=8, kind='bounded', bound='1..3 disks of at most 5 positions, every block state at every position',
            functions=['parity_is_invalid (cmdline/parity.c)', 'parity_allocated_size (cmdline/parity.c)', 'block_has_file / block_has_invalid_parity (cmdline/elem.h)']),
-    ] + [o for o in main_obs() if o.name in ('main.diff_branch.region', 'main.sync_branch.region')]
+    ] + [o for o in main_obs() if o.name in ('main.diff_branch.region', 'main.sync_branch.region')] + [o for o in syncrd_obs() if o.name == 'sync.data_reader']
 
 
 def c06(tier, seed):
@@ -881,6 +881,36 @@ def hash_obs(tier):
             for n in lens]
 
 
+SYNC_DATA_READER = dict(region='sync_data_reader', file='cmdline/sync.c', begin='static void sync_data_reader(struct snapraid_worker* worker, struct snapraid_task* task)',
+                        end='static void sync_parity_writer(struct snapraid_worker* worker, struct snapraid_task* task)', max_lines=170, expect_loops=0,
+                        proto='static void region_sync_data_reader(struct snapraid_worker *worker, struct snapraid_task *task)',
+                        prologue='\t/* the region text is the whole body block of sync_data_reader() */')
+SYNC_TASK_STATE = dict(region='sync_task_state', file='cmdline/sync.c', scope='static int state_sync_process(struct snapraid_state* state, struct snapraid_parity_handle* parity_handle, block_off_t blockstart, block_off_t blockmax)',
+                       begin='/* handle error conditions */', end='countsize += read_size;', end_first_after=True, max_lines=50, expect_loops=0,
+                       proto='static void region_sync_task_state(struct snapraid_state *state, struct snapraid_task *task, struct snapraid_disk *disk, block_off_t blockcur, unsigned *io_error_p, unsigned *error_p, int *error_on_p, int *io_on_p, int *bailed, int *fell_through)',
+                       prologue='\tunsigned io_error = *io_error_p, error = *error_p;\n\tint error_on_this_block = *error_on_p, io_error_on_this_block = *io_on_p;\n\tint once;\n\tfor (once = 0; once < 1; ++once) { /* per-disk loop body: `continue` leaves it */',
+                       epilogue='\t*fell_through = 1;\n\t}\n\tgoto out;\nbail:\n\t*bailed = 1;\nout:\n\t*io_error_p = io_error; *error_p = error; *error_on_p = error_on_this_block; *io_on_p = io_error_on_this_block;')
+
+
+SCRUB_DATA_READER = dict(region='scrub_data_reader', file='cmdline/scrub.c', begin='static void scrub_data_reader(struct snapraid_worker* worker, struct snapraid_task* task)',
+                         end='static void scrub_parity_reader(struct snapraid_worker* worker, struct snapraid_task* task)', max_lines=130, expect_loops=0,
+                         proto='static void region_scrub_data_reader(struct snapraid_worker *worker, struct snapraid_task *task)',
+                         prologue='\t/* the region text is the whole body block of scrub_data_reader() */')
+
+
+def syncrd_obs():
+    R = 'harness/h_syncrd.c'
+    return [Ob('scrub.data_reader', R, 'h_scrub_data_reader', inject=[SYNC_DATA_READER, SYNC_TASK_STATE, SCRUB_DATA_READER], defs={'VERIF_SCRUB_READER': None}, unwind=10, small_path=True, timeout=900, mem=8, cost=6, replay=False,
+               functions=['scrub_data_reader (cmdline/scrub.c; whole body extracted mechanically, callees routed to stubs)'],
+               note='every block state, what the handle holds, every outcome / errno of close, open and read, every recorded vs actual size / seconds / nanoseconds'),
+            Ob('sync.data_reader', R, 'h_sync_data_reader', inject=[SYNC_DATA_READER, SYNC_TASK_STATE], unwind=10, small_path=True, timeout=900, mem=8, cost=6, replay=False,
+               functions=['sync_data_reader (cmdline/sync.c; whole body extracted mechanically, callees routed to stubs)'],
+               note='every block state, what the handle holds, every outcome / errno of close, open and read, every recorded vs actual size / seconds / nanoseconds / inode'),
+            Ob('sync.task_state.region', R, 'h_sync_task_state', inject=[SYNC_DATA_READER, SYNC_TASK_STATE], unwind=4, small_path=True, timeout=600, mem=6, cost=3, replay=False,
+               functions=['state_sync_process: region "handle error conditions" (cmdline/sync.c, extracted mechanically)'],
+               note='every task state, error counters and I/O error limit')]
+
+
 def c08(tier, seed):
     c06u = [o for o in PROPS['C06']['obligations'](tier, seed) if o.name == 'sync.complete.region']
     c15u = [o for o in PROPS['C15']['obligations'](tier, seed) if o.name in ('scrub.mark.region', 'scrub.classify.region')]
@@ -891,7 +921,7 @@ def c08(tier, seed):
                timeout=900, mem=8, cost=5, replay=False,
                functions=['state_sync_process: region "handle errors reported" .. "mark the state as needing write" (cmdline/sync.c, extracted mechanically)'],
                note='every vector of writer error counts and every error limit; info_set replaced by a recording contract (dfcc)',
-               expect_fail=['a parity write I/O error leaves some stripe marked bad'])] + c06u + c15u
+               expect_fail=['a parity write I/O error leaves some stripe marked bad'])] + c06u + c15u + syncrd_obs()
 
 
 # ---------------------------------------------------------------- composed properties
@@ -903,7 +933,7 @@ def c16(tier, seed):
 
 def c04(tier, seed):
     c15 = [o for o in PROPS['C15']['obligations'](tier, seed) if o.name in ('scrub.mark.region', 'scrub.classify.region', 'scrub.block_is_enabled', 'scrub.info_word')]
-    return [o for o in check_obs(tier) if o.name == 'check.blockcmp'] + sync_hash_obs() + c15
+    return [o for o in check_obs(tier) if o.name == 'check.blockcmp'] + sync_hash_obs() + c15 + [o for o in syncrd_obs() if o.name == 'scrub.data_reader']
 
 
 def c01(tier, seed):
@@ -989,9 +1019,9 @@ for k in ('C01', 'C04', 'C05', 'C06', 'C16', 'C19'):
 
 
 PROPS['C08'].update(
-    explanation='The SEQUENTIAL part of the property: (1) reader side - sync\'s completion region never records a block as synced when the stripe had an I/O error and always leaves that stripe marked bad; scrub\'s classification region turns a read EIO into an I/O error on this stripe and its book-keeping region marks the stripe bad (keeping time and marks); other stripes are unaffected (per-stripe flags). (2) writer side - the single-threaded I/O path reports every parity write that ended in an error state to the sync loop (genuine defect found and fixed: it reported none), and the loop counts it so that the command fails and stops at the error limit; but no stripe is marked bad for a parity WRITE error (KNOWN-FINDING, shown with the real binary by fault injection). The asynchronous writer queue (errors collected one stripe later, errors after the last collection never read) depends on thread timing and is not decided.',
+    explanation='The SEQUENTIAL part of the property: (0) the reader functions themselves (sync_data_reader / scrub_data_reader, whole bodies extracted, callees by stub): a block is handed on as DONE only after a successful open and read (sync: and only if size, seconds, nanoseconds and inode are still the recorded ones); an EIO on read is IOERROR_CONTINUE, on open / close IOERROR; scrub reads a file that looks changed anyway and flags it; the task-state region of sync turns each outcome into the counters and per-stripe flags (I/O error limit included). (1) reader side - sync\'s completion region never records a block as synced when the stripe had an I/O error and always leaves that stripe marked bad; scrub\'s classification region turns a read EIO into an I/O error on this stripe and its book-keeping region marks the stripe bad (keeping time and marks); other stripes are unaffected (per-stripe flags). (2) writer side - the single-threaded I/O path reports every parity write that ended in an error state to the sync loop (genuine defect found and fixed: it reported none), and the loop counts it so that the command fails and stops at the error limit; but no stripe is marked bad for a parity WRITE error (KNOWN-FINDING, shown with the real binary by fault injection). The asynchronous writer queue (errors collected one stripe later, errors after the last collection never read) depends on thread timing and is not decided.',
     trusted_base=['region extraction of state_sync_process / state_scrub_process', 'info_set, fs_*, raid_gen by recording contracts (dfcc replace)', 'the writer function is a stub that sets the task state'],
     assumptions=['threads: cbmc contracts are sequential; io.c worker threads, the ring of task slots and the one-stripe delay of the error report are not modelled', 'the diagnostic text and exit status of the whole command are not function-level statements; only the counters that drive them are checked'],
-    not_covered=['io.c threaded path (io_writer_thread, io_writer_step, io_write_next_thread)', 'parity read errors during the in-memory repair of sync', 'scrub parity read path', 'error limit handling of readers beyond the classification regions'])
+    not_covered=['io.c threaded path (io_writer_thread, io_writer_step, io_write_next_thread)', 'parity read errors during the in-memory repair of sync', 'scrub parity read path', 'scrub_parity_reader / sync_parity_writer bodies (three-line errno mappings)'])
 MANIFEST_TEXT['C08'] = dict(level_text='Narrow: the per-stripe consequences of an I/O error (no BLK, bad mark) and the single-threaded accounting of parity write errors are sequential statements and are decided (one defect fixed, one recorded); the asynchronous queue is not - level other.',
                             design_ref='DESIGN.md sections 4 and 6', level_note='threads not modelled; writer function stubbed; known finding: parity write errors never mark a stripe bad', technique='CBMC drivers / dfcc on real cmdline/io.c (mono path) + extracted regions of sync.c / scrub.c')
